@@ -134,6 +134,22 @@ def run_functions(chk: core.Check, thorough: bool):
                 o2 = np.asarray(fn(*[a.reshape(2, -1) for a in arrs]))
                 if o2.shape != (2, n // 2) or not same(o2.ravel(), ref_arr):
                     bad("2-d numpy array", dt, str(o2.shape), str((2, n // 2))); return
+            # containers with zero elements (after a cut removed every hit): empty result of the same structure, no exception
+            empties = [("empty numpy array", lambda a: a[:0], lambda o: np.asarray(o).shape == (0,)),
+                       ("empty 2-d numpy array", lambda a: a[:0].reshape(0, 3), lambda o: np.asarray(o).shape == (0, 3)),
+                       ("empty awkward array", lambda a: ak.Array(a[:0]), lambda o: len(o) == 0),
+                       ("awkward array of empty lists", lambda a: ak.unflatten(ak.Array(a[:0]), [0, 0, 0]), lambda o: ak.to_list(o) == [[], [], []])]
+            for label, mk, okf in empties:
+                try:
+                    o = fn(*[mk(a) for a in arrs])
+                    good = bool(okf(o))
+                    got = str(getattr(o, "type", np.asarray(o).shape))
+                except Exception as ex:
+                    good, got = False, f"{type(ex).__name__}: {str(ex)[:200]}"
+                chk.count(1, key=f"{name}-{label}")
+                chk.hist("layout", label)
+                if not good:
+                    bad(label, dt, got, "an empty result with the input's structure"); return
             # awkward layouts (a subset of dtypes in the quick tier)
             if thorough or dt in ("uint32", "int64", "uint8", "uint16"):
                 for label, aks, order in layouts(cols, dt, rng):
